@@ -473,7 +473,7 @@ def rule_scope(ctx: Ctx):
 def rule_initial(ctx: Ctx):
     """C02.initial"""
     rep, k = ctx.rep, ctx.k
-    it = ctx.fn("BaseEngine._initial_transition")
+    it = ctx.fn(f"BaseEngine.{ctx.k.initial_transition_name}")
     literals = {}
     for p in ctx.paths(it):
         if p.kind != "return":
@@ -538,7 +538,7 @@ def rule_initial(ctx: Ctx):
                             continue
                         found = True
                         calls = [e for e in p.events[b.idx:] if e.kind == "call"]
-                        it_calls = [e for e in calls if k.calls_method(e, "_initial_transition")]
+                        it_calls = [e for e in calls if k.calls_method(e, k.initial_transition_name)]
                         act = [e for e in calls if k.calls_method(e, "_activate")]
                         ok = bool(it_calls) and len(act) == 1 and it_calls[0].idx < act[0].idx and len(act[0].term.args) >= 2 \
                             and show(act[0].term.args[1]) == show(result_of(it_calls[0], p))
